@@ -176,3 +176,33 @@ Definition agrees (impl : list obs * tstate) (spec : list obs * sstate) (ops : l
    bk_main (ts_state (snd impl)) = c_main (backend (snd spec)) /\
    norm_children (bk_children (ts_state (snd impl))) = norm_children (c_children (backend (snd spec))) /\
    bk_stale (ts_state (snd impl)) = []).
+
+(* ---- "the committed operations applied directly": the operations of a well-nested history
+   that survive (rolled-back transactions dropped, start/commit markers removed).  One op list
+   per open transaction level, each holding everything visible at that level. *)
+Definition limit_free_op (o : op) : bool :=
+  match o with
+  | OClearPrefixLimit _ _ | OCClearPrefixLimit _ _ _ | OKillLimit _ (Some _) => false
+  | _ => true
+  end.
+
+Definition fsstep (o : op) (fs : list (list op)) : option (list (list op)) :=
+  match o, fs with
+  | OStart, f :: r => Some (f :: f :: r)
+  | OCommit, f :: _ :: r => Some (f :: r)
+  | ORollback, _ :: g :: r => Some (g :: r)
+  | OCommit, _ | ORollback, _ => None
+  | _, f :: r => Some ((f ++ [o]) :: r)
+  | _, [] => None
+  end.
+
+Fixpoint fsrun (ops : list op) (fs : list (list op)) : option (list (list op)) :=
+  match ops with
+  | [] => Some fs
+  | o :: r => match fsstep o fs with Some fs' => fsrun r fs' | None => None end
+  end.
+
+(* flattened ops = Some f: ops is well nested from depth 0, ends at depth 0, and f is what
+   it commits *)
+Definition flattened (ops : list op) : option (list op) :=
+  match fsrun ops [[]] with Some [f] => Some f | _ => None end.
